@@ -5,6 +5,7 @@ import Driver.Ops.Rematch
 import Driver.Ops.Audit
 import Driver.Ops.Equity
 import Driver.Ops.Price
+import Driver.Ops.Export
 import Driver.Ops.GitSel
 import Driver.Ops.Out
 import Driver.Ops.Scale
@@ -27,7 +28,9 @@ def outputTable : List (String × Ops.OutputFn) := [
   ("selects", Ops.outSelects),
   ("baltxt", Ops.outBalanceTxt),
   ("probe", Ops.outProbe),
-  ("balgrp", Ops.outBalGrp)
+  ("balgrp", Ops.outBalGrp),
+  ("identity", Ops.outIdentity),
+  ("roundtrip", Ops.outRoundtrip)
 ]
 
 /-- ops -/
